@@ -1,0 +1,335 @@
+//go:build verif
+
+// Verification hook (build tag `verif` only): exported wrappers around the unexported chunk
+// journal code (record codec, recovery scan, data-loss check, journal bootstrap, index parser,
+// lock) and accessors for the observable state of the journal writer of an open store.
+// Nothing in this file is compiled into dolt without `-tags verif`.
+
+package nbs
+
+import (
+	"bufio"
+	"bytes"
+	"context"
+	"errors"
+	"io"
+	"sort"
+	"time"
+
+	"github.com/dolthub/dolt/go/store/chunks"
+	"github.com/dolthub/dolt/go/store/hash"
+)
+
+// VerifJrnRec is a parsed journal record as seen by the callback of processJournalRecords.
+type VerifJrnRec struct {
+	Off        int64
+	Length     uint32
+	Kind       uint8
+	Addr       hash.Hash
+	PayloadOff uint32
+	PayloadLen uint32
+	UnixTime   int64
+	HasTime    bool
+}
+
+func verifJrnRecOf(o int64, r journalRec) VerifJrnRec {
+	v := VerifJrnRec{Off: o, Length: r.length, Kind: uint8(r.kind), Addr: r.address,
+		PayloadOff: r.payloadOffset(), PayloadLen: uint32(len(r.payload))}
+	if !r.timestamp.IsZero() {
+		v.HasTime = true
+		v.UnixTime = r.timestamp.Unix()
+	}
+	return v
+}
+
+// VerifJrnBuffSize returns journalWriterBuffSize; VerifJrnSetBuffSize replaces it (the harness
+// lowers it so that the 2x-buffer windows of possibleDataLossCheck and the buffer-full flushes of
+// the writer occur on small inputs) and returns the previous value.
+func VerifJrnBuffSize() uint32 { return journalWriterBuffSize }
+
+func VerifJrnSetBuffSize(n uint32) (old uint32) {
+	old = journalWriterBuffSize
+	journalWriterBuffSize = n
+	return old
+}
+
+func VerifJrnRootRecordSize() int { return rootHashRecordSize() }
+
+const VerifJrnMaybeSyncThreshold = journalMaybeSyncThreshold
+const VerifJrnDefaultMaxNovel = journalIndexDefaultMaxNovel
+const VerifJrnFileName = chunkJournalName
+const VerifJrnIndexFileName = journalIndexFileName
+const VerifJrnLockFileName = lockFileName
+
+// VerifJrnEncodeChunk is writeChunkRecord for (h, full compressed chunk bytes incl. its crc).
+func VerifJrnEncodeChunk(h hash.Hash, fullCompressed []byte) []byte {
+	cc := CompressedChunk{H: h, FullCompressedChunk: fullCompressed}
+	sz, _ := chunkRecordSize(cc)
+	buf := make([]byte, sz)
+	n := writeChunkRecord(buf, cc)
+	return buf[:n]
+}
+
+// VerifJrnCompress is ChunkToCompressedChunk(...).FullCompressedChunk.
+func VerifJrnCompress(data []byte) (hash.Hash, []byte) {
+	c := chunks.NewChunk(data)
+	return c.Hash(), ChunkToCompressedChunk(c).FullCompressedChunk
+}
+
+// VerifJrnEncodeRoot is writeRootHashRecord with the timestamp generator pinned to |ts|.
+func VerifJrnEncodeRoot(root hash.Hash, ts uint64) []byte {
+	old := journalRecordTimestampGenerator
+	journalRecordTimestampGenerator = func() uint64 { return ts }
+	defer func() { journalRecordTimestampGenerator = old }()
+	buf := make([]byte, rootHashRecordSize())
+	n := writeRootHashRecord(buf, root)
+	return buf[:n]
+}
+
+func VerifJrnValidate(buf []byte) error { return validateJournalRecord(buf) }
+
+func VerifJrnReadRecord(buf []byte) (VerifJrnRec, error) {
+	r, err := readJournalRecord(buf)
+	if err != nil {
+		return VerifJrnRec{}, err
+	}
+	return verifJrnRecOf(0, r), nil
+}
+
+// VerifJrnScan is processJournalRecordsReader over |data| followed (when the scan ended in the
+// recovery state) by possibleDataLossCheck on the same reader, i.e. processJournalRecords without
+// the file truncation.  cbKinds=true applies the kind check of bootstrapJournal's callback.
+func VerifJrnScan(ctx context.Context, data []byte, off int64, cbKinds bool) (recs []VerifJrnRec, end int64, recovered bool, dataLoss bool, warnings []string, err error) {
+	cb := func(o int64, r journalRec) error {
+		if cbKinds && r.kind != chunkJournalRecKind && r.kind != rootHashJournalRecKind {
+			return errors.New("unknown journal record kind")
+		}
+		recs = append(recs, verifJrnRecOf(o, r))
+		return nil
+	}
+	var rdr *bufio.Reader
+	rdr, end, recovered, err = processJournalRecordsReader(ctx, bytes.NewReader(data[off:]), off, cb, func(e error) { warnings = append(warnings, e.Error()) })
+	if err != nil && err != io.EOF {
+		return recs, 0, recovered, false, warnings, err
+	}
+	err = nil
+	if recovered {
+		var derr error
+		dataLoss, derr = possibleDataLossCheck(rdr)
+		if derr != nil {
+			warnings = append(warnings, "dataloss-check: "+derr.Error())
+		}
+	}
+	return
+}
+
+// VerifJrnProcess is processJournalRecords on a real file (truncates when tryTruncate).
+func VerifJrnProcess(ctx context.Context, path string, f io.ReadSeeker, tryTruncate bool, off int64) (recs []VerifJrnRec, end int64, warnings []string, err error) {
+	end, err = processJournalRecords(ctx, path, f, tryTruncate, off, func(o int64, r journalRec) error {
+		recs = append(recs, verifJrnRecOf(o, r))
+		return nil
+	}, func(e error) { warnings = append(warnings, e.Error()) })
+	return
+}
+
+func VerifJrnDataLossCheck(data []byte) (bool, error) {
+	return possibleDataLossCheck(bufio.NewReaderSize(bytes.NewReader(data), int(journalWriterBuffSize)))
+}
+
+func VerifJrnPeekRootHashAt(data []byte, off int64) (hash.Hash, error) {
+	return peekRootHashAt(bytes.NewReader(data), off)
+}
+
+// VerifJrnRange is one entry of the journal writer's range index after bootstrap.  Cached entries
+// (loaded from / flattened into the addr16-keyed map) carry only the 16-byte prefix.
+type VerifJrnRange struct {
+	Addr   []byte // 20 bytes (novel) or 16 bytes (cached)
+	Offset uint64
+	Length uint32
+}
+
+// VerifJrnBoot is the observable outcome of journalWriter.bootstrapJournal.
+type VerifJrnBoot struct {
+	Root     hash.Hash
+	Off      int64
+	Indexed  int64
+	UncmpSz  uint64
+	Novel    []VerifJrnRange
+	Cached   []VerifJrnRange
+	Warnings []string
+}
+
+// VerifJrnBootstrap opens <dir>/journal with openJournalWriter and runs bootstrapJournal
+// (journal index load + journal replay) exactly as ChunkJournal.bootstrapJournalWriter does for an
+// existing journal; |read| (optional) is called with a reader of the bootstrapped journal (ranges
+// -> bytes via journalWriter.readAt) before the writer is closed.
+func VerifJrnBootstrap(ctx context.Context, dir string, canWrite bool, maxNovel int, read func(get func(h hash.Hash) ([]byte, bool, error))) (b VerifJrnBoot, err error) {
+	wr, ok, err := openJournalWriter(ctx, dir+"/"+chunkJournalName)
+	if err != nil {
+		return b, err
+	} else if !ok {
+		return b, errors.New("missing chunk journal")
+	}
+	wr.maxNovel = maxNovel
+	defer func() {
+		if cerr := wr.Close(); err == nil && cerr != nil {
+			err = cerr
+		}
+	}()
+	b.Root, err = wr.bootstrapJournal(ctx, canWrite, nil, func(e error) { b.Warnings = append(b.Warnings, e.Error()) })
+	if err != nil {
+		return b, err
+	}
+	b.Off, b.Indexed, b.UncmpSz = wr.off, wr.indexed, wr.uncmpSz
+	for h, r := range wr.ranges.novel {
+		hh := h
+		b.Novel = append(b.Novel, VerifJrnRange{Addr: hh[:], Offset: r.Offset, Length: r.Length})
+	}
+	for a, r := range wr.ranges.cached {
+		aa := a
+		b.Cached = append(b.Cached, VerifJrnRange{Addr: aa[:], Offset: r.Offset, Length: r.Length})
+	}
+	less := func(x []VerifJrnRange) func(i, j int) bool {
+		return func(i, j int) bool { return bytes.Compare(x[i].Addr, x[j].Addr) < 0 }
+	}
+	sort.Slice(b.Novel, less(b.Novel))
+	sort.Slice(b.Cached, less(b.Cached))
+	if read != nil {
+		read(func(h hash.Hash) ([]byte, bool, error) {
+			if !wr.hasAddr(h) {
+				return nil, false, nil
+			}
+			cc, err := wr.getCompressedChunk(h)
+			if err != nil {
+				return nil, true, err
+			}
+			return cc.FullCompressedChunk, true, nil
+		})
+	}
+	return b, nil
+}
+
+// VerifJrnWriterState is the observable state of the journal writer of an open journaling store.
+type VerifJrnWriterState struct {
+	Off         int64
+	BufLen      int
+	BufCap      int
+	Unsyncd     uint64
+	Indexed     int64
+	Novel       int
+	Cached      int
+	MaxNovel    int
+	BatchCrc    uint32
+	CurrentRoot hash.Hash
+	IndexBuffed int // bytes sitting in the index bufio.Writer
+	ReadOnly    bool
+}
+
+func verifJrnWriter(nbs *NomsBlockStore) (*ChunkJournal, *journalWriter) {
+	if err := nbs.ensureLoad(context.Background()); err != nil {
+		return nil, nil
+	}
+	cj, ok := nbs.persister.(*ChunkJournal)
+	if !ok || cj == nil {
+		return nil, nil
+	}
+	return cj, cj.wr
+}
+
+func VerifJrnState(nbs *NomsBlockStore) (st VerifJrnWriterState, ok bool) {
+	cj, wr := verifJrnWriter(nbs)
+	if wr == nil {
+		return st, false
+	}
+	wr.lock.RLock()
+	defer wr.lock.RUnlock()
+	st = VerifJrnWriterState{Off: wr.off, BufLen: len(wr.buf), BufCap: cap(wr.buf), Unsyncd: wr.unsyncd, Indexed: wr.indexed,
+		Novel: len(wr.ranges.novel), Cached: len(wr.ranges.cached), MaxNovel: wr.maxNovel, BatchCrc: wr.batchCrc,
+		CurrentRoot: wr.currentRoot, ReadOnly: cj.backing.readOnly()}
+	if wr.indexWriter != nil {
+		st.IndexBuffed = wr.indexWriter.Buffered()
+	}
+	return st, true
+}
+
+// VerifJrnSetMaxNovel lowers the index flush threshold of an open store's journal writer.
+func VerifJrnSetMaxNovel(nbs *NomsBlockStore, n int) bool {
+	_, wr := verifJrnWriter(nbs)
+	if wr == nil {
+		return false
+	}
+	wr.lock.Lock()
+	defer wr.lock.Unlock()
+	wr.maxNovel = n
+	return true
+}
+
+// VerifJrnAddUnsyncd advances the writer's un-synced byte counter (to reach the 64 MiB
+// journalMaybeSyncThreshold branch of writeCompressedChunk without writing 64 MiB).
+func VerifJrnAddUnsyncd(nbs *NomsBlockStore, delta uint64) bool {
+	_, wr := verifJrnWriter(nbs)
+	if wr == nil {
+		return false
+	}
+	wr.lock.Lock()
+	defer wr.lock.Unlock()
+	wr.unsyncd += delta
+	return true
+}
+
+// VerifJrnFlushIndex flushes the buffered index writer of an open store (what Close does), so the
+// on-disk index can be inspected while the store stays open.
+func VerifJrnFlushIndex(nbs *NomsBlockStore) {
+	_, wr := verifJrnWriter(nbs)
+	if wr == nil || wr.indexWriter == nil {
+		return
+	}
+	wr.lock.Lock()
+	defer wr.lock.Unlock()
+	_ = wr.indexWriter.Flush()
+}
+
+// VerifJrnIdxLookup / VerifJrnIdxBatch: what processIndexRecords hands to its callback.
+type VerifJrnIdxLookup struct {
+	Addr16 [16]byte
+	Offset uint64
+	Length uint32
+}
+
+type VerifJrnIdxBatch struct {
+	Start, End int64
+	CheckSum   uint32
+	Computed   uint32
+	Latest     hash.Hash
+	Lookups    []VerifJrnIdxLookup
+}
+
+func VerifJrnProcessIndex(data []byte) (batches []VerifJrnIdxBatch, off int64, err error) {
+	off, err = processIndexRecords(bufio.NewReader(bytes.NewReader(data)), int64(len(data)), func(m lookupMeta, batch []lookup, crc uint32) error {
+		b := VerifJrnIdxBatch{Start: m.batchStart, End: m.batchEnd, CheckSum: m.checkSum, Computed: crc, Latest: m.latestHash}
+		for _, l := range batch {
+			b.Lookups = append(b.Lookups, VerifJrnIdxLookup{Addr16: l.a, Offset: l.r.Offset, Length: l.r.Length})
+		}
+		batches = append(batches, b)
+		return nil
+	})
+	return
+}
+
+func VerifJrnIsMalformedIndex(err error) bool { return errors.Is(err, ErrMalformedIndex) }
+
+// VerifJrnLock is newJournalLock; release unlocks and closes the lock (nil when not acquired).
+func VerifJrnLock(dir string, timeout time.Duration, failOnTimeout bool) (mode chunks.ExclusiveAccessMode, release func(), err error) {
+	lock, mode, err := newJournalLock(dir, timeout, failOnTimeout)
+	if lock != nil {
+		release = func() {
+			_ = lock.Unlock()
+			_ = lock.Close()
+		}
+	}
+	return mode, release, err
+}
+
+const VerifJrnLockFileTimeout = lockFileTimeout
+
+func VerifJrnCrc(b []byte) uint32 { return crc(b) }
